@@ -407,6 +407,13 @@ class RegionBlock(BasicBlock):
     subregion: Optional["SCFG"] = None  # type: ignore  # noqa
     exiting: Optional[str] = None
 
+    def __post_init__(self) -> None:
+        # The sub-graph records the region block it belongs to. Region blocks
+        # are frozen and copied whenever they are re-targeted, keep the record
+        # pointing at the latest copy.
+        if self.subregion is not None:
+            object.__setattr__(self.subregion, "region", self)
+
     def replace_header(self, new_header: str) -> None:
         """This method performs a inplace replacement of the header block.
 
